@@ -1577,18 +1577,25 @@ class SymmCards():
         :param symm_data: list of strings. eg.['1/2+X', '1/2+Y', '1/2+Z']
         :return: None
         """
-        new_symm = SymmetryElement(symm_data)
-        self._symmcards.append(new_symm)
-        for symm in self.shx.latt.latt_ops:
-            latt_symm = new_symm.apply_latt_symm(symm)
-            if latt_symm not in self._symmcards:
-                self._symmcards.append(latt_symm)
+        self._append_with_lattice(SymmetryElement(symm_data))
+
+    def _append_with_lattice(self, new_symm: SymmetryElement) -> None:
+        """
+        Adds an operator, its combinations with all lattice centring translations and, for
+        centrosymmetric lattices, the inverted copies of all of these. Each operator is added only once.
+        """
+        centred = [new_symm] + [new_symm.apply_latt_symm(symm) for symm in self.shx.latt.latt_ops]
         if self.shx.latt.centric:
-            self._symmcards.append(SymmetryElement(symm_data, centric=True))
-            for symm in self.shx.latt.latt_ops:
-                latt_symm = new_symm.apply_latt_symm(symm)
-                latt_symm.centric = True
-                self._symmcards.append(latt_symm)
+            centred = centred + [symm.inverted() for symm in centred]
+        for symm in centred:
+            if symm not in self._symmcards:
+                self._symmcards.append(symm)
+
+    def add_lattice_operators(self) -> None:
+        """
+        Adds the lattice centring copies of the identity (and of the inversion) after LATT is known.
+        """
+        self._append_with_lattice(self._symmcards[0])
 
     def set_centric(self, value: bool) -> None:
         """
